@@ -3,6 +3,7 @@
 mod evidence;
 mod fsbox;
 mod gen_sixel;
+mod gen_term;
 mod guard;
 mod minimize;
 mod mon_term;
